@@ -15,13 +15,18 @@ def gen_cases(rng, n, tier, faults=None):
     cases = [g.case() for _ in range(n)]
     # focused small graphs: one state-carrying kind at a time, few nodes, many events over a small alphabet, nearly
     # every element with metadata (repeated keys / full windows / backlogs are reached far more often than in big graphs)
-    per = max(8, n // 40)
+    per = max(40, n // 6)
     for k in FOCUS_KINDS:
         if faults == "direct" and k == "partition":
             continue
         gk = syncfam.Gen(rng, max_nodes=5, max_events=16 if tier == "quick" else 30, faults=faults,
-                         allow=[k, "map", "sink", "union"], md_prob=0.9, feedback=0.1)
-        cases += [gk.case() for _ in range(per)]
+                         allow=[k, "map", "sink", "union"], md_prob=0.9, feedback=0.1, narrow=True)
+        for _ in range(per):
+            for _try in range(12):
+                c = gk.case()
+                if any(sp["k"] == k for sp in c["nodes"]):
+                    break
+            cases.append(c)
     return cases
 
 
